@@ -1,6 +1,6 @@
 (* F64.v — binary64 layer: Coq primitive floats reproduce Go's float64 operations bit for bit
    (+ - * / compare are IEEE round-to-nearest-even in both; math.Floor/Ceil/Pow(2,n)/Mod on integral arguments are modelled here).
-   Executable definitions only; theorems about them are in F64Thm.v / PointThm.v / VertexThm.v. *)
+   Executable definitions only; theorems about them are in PtBridge.v, FF.v, XF.v, YF.v, West.v and VertexProofs.v. *)
 From Coq Require Import ZArith Floats Uint63 Bool List.
 Import ListNotations.
 Open Scope float_scope.
